@@ -24,6 +24,7 @@ var c03C struct {
 	socks    []*c03Sock
 	replyLen [][]int // scripted reply sizes per socket index
 	idle     chan struct{} // closed when the traffic is over: only then do the sockets' idle timeouts fire
+	failDial int           // the next failDial dials fail (descriptor shortage and the like)
 }
 
 func c03Sock4(c *net.UDPConn) *c03Sock {
@@ -36,6 +37,10 @@ func c03Sock4(c *net.UDPConn) *c03Sock {
 }
 
 func c03StubDialUDP(network string, laddr, raddr *net.UDPAddr) (*net.UDPConn, error) {
+	if c03C.failDial > 0 {
+		c03C.failDial--
+		return nil, errors.New("dial udp: too many open files")
+	}
 	s := &c03Sock{conn: &net.UDPConn{}}
 	i := len(c03C.socks)
 	if i < len(c03C.replyLen) {
@@ -90,6 +95,7 @@ func VerifC03ClientForwarder() {
 		reqs = append(reqs, req{zzverif.Choice("user", 2), zzverif.Bytes("payload", zzverif.Choice("size", 2))})
 	}
 	c03C.socks, c03C.replyLen = nil, nil
+	c03C.failDial = 0
 	c03C.idle = make(chan struct{})
 	for s := 0; s < 2; s++ {
 		var lens []int
@@ -170,4 +176,33 @@ func VerifC03ClientForwarder() {
 	if len(order) == 2 {
 		zzverif.Reach("C03.cfwd.two-users")
 	}
+}
+
+// VerifC16ForwarderDialFault: a local socket that cannot be opened for one user costs that user's
+// datagram and nothing else: the forwarder keeps serving the users that follow.
+func VerifC16ForwarderDialFault() {
+	users := []*net.UDPAddr{{Port: 1000}, {Port: 1001}}
+	c03C.socks, c03C.replyLen = nil, nil
+	c03C.idle = make(chan struct{})
+	c03C.failDial = 1 + zzverif.Choice("failedDials", 2)
+	readCh := make(chan *msg.UDPPacket, 8)
+	sendCh := make(chan msg.Message, 16)
+	Forwarder(&net.UDPAddr{Port: 53}, readCh, sendCh, 8)
+	n := c03C.failDial
+	for i := 0; i < n; i++ {
+		readCh <- NewUDPPacket([]byte{1}, nil, users[0]) // lost: its socket cannot be opened
+	}
+	later := zzverif.Bytes("payload", 1+zzverif.Choice("size", 2))
+	readCh <- NewUDPPacket(later, nil, users[zzverif.Choice("laterUser", 2)])
+	close(readCh)
+	zzverif.Quiesce()
+	close(c03C.idle)
+	zzverif.Quiesce()
+	zzverif.Assert(len(c03C.socks) == 1, "C16.dialfault.forwarder-keeps-serving-after-a-failed-dial")
+	if len(c03C.socks) == 1 {
+		w := c03C.socks[0].written
+		zzverif.Assert(len(w) == 1 && zzverif.BytesEq(w[0], later), "C16.dialfault.later-datagram-forwarded-unchanged")
+	}
+	zzverif.Reach("C16.dialfault.done")
+	c03C.failDial = 0
 }
